@@ -1607,6 +1607,54 @@ async fn emit_event(
     let _ = event_log.append(&event);
 }
 
+/// Verification driver: feeds `chunks` through the real `OpenResponsesSsePipe` exactly the way
+/// the streaming request loop does (push_bytes until the terminal marker, then finish) and returns
+/// the emitted frames and the final seq.
+#[cfg(rip_verif)]
+pub(crate) async fn verif_run_sse_pipe(
+    chunks: Vec<Vec<u8>>,
+    seq0: u64,
+    strict_validation: bool,
+    log_path: &std::path::Path,
+) -> (Vec<Event>, u64) {
+    let (sender, _rx) = broadcast::channel::<Event>(65_536);
+    let buffer: Arc<Mutex<Vec<Event>>> = Arc::new(Mutex::new(Vec::new()));
+    let event_log = EventLog::new(log_path).expect("verif event log");
+    let sink = EventSink {
+        sender: &sender,
+        buffer: &buffer,
+        event_log: &event_log,
+    };
+    let mut seq = seq0;
+    {
+        let mut collector = ToolCallCollector::default();
+        let mut pipe = OpenResponsesSsePipe::new(
+            "verif-session",
+            &mut seq,
+            sink,
+            Some(&mut collector),
+            if strict_validation {
+                ValidationOptions::strict()
+            } else {
+                ValidationOptions::compat_missing_item_ids()
+            },
+        );
+        let mut utf8_buf = Vec::new();
+        let mut saw_done = false;
+        for chunk in &chunks {
+            saw_done = pipe.push_bytes(&mut utf8_buf, chunk).await;
+            if saw_done {
+                break;
+            }
+        }
+        if !saw_done {
+            let _ = pipe.finish().await;
+        }
+    }
+    let frames = buffer.lock().await.clone();
+    (frames, seq)
+}
+
 #[cfg(test)]
 mod tests {
     use super::*;
